@@ -1,7 +1,7 @@
 (* ===== C08 : text and categorical columns are dummy-coded; the matrix is numeric ===== *)
-From Coq Require Import List NArith ZArith QArith Qcanon Bool Arith.
+From Coq Require Import List NArith ZArith QArith Qcanon Bool Arith Sorted.
 Import ListNotations.
-Require Import GenDtypes DtypeLaws Mat MatLaws.
+Require Import GenDtypes DtypeLaws Mat MatLaws LevelsSorted.
 Open Scope nat_scope.
 
 (* Over the dtype table regenerated from /repo on every run (object, str, string[python], string[pyarrow], category,
@@ -27,6 +27,35 @@ Theorem C08_indicator_cells_numeric : forall v lv i s, nth_error v i = Some (Som
   nth_error (indicator v lv) i = Some (Some (if leqb s lv then Q2Qc 1 else Q2Qc 0)).
 Proof. exact indicator_cells. Qed.
 
+(* "levels in sorted order for text": the levels discovered in a text column are exactly its non-null values, in strictly increasing
+   order (hence without repeats); the order is Python's order of strings -- by code point at the first difference, a proper prefix first.
+   For a categorical dtype `levels_used` is the declared list itself (C08_categorical_levels), observed or not. *)
+Theorem C08_text_levels_are_the_values : forall v s, In s (levels_of v) <-> In (Some s) v.
+Proof. exact levels_of_exact. Qed.
+Theorem C08_text_levels_sorted : forall v, StronglySorted slt (levels_of v).
+Proof. exact levels_of_sorted. Qed.
+Theorem C08_text_levels_distinct : forall v, NoDup (levels_of v).
+Proof. exact levels_of_nodup. Qed.
+Theorem C08_order_is_codepoint_order : (forall a b, b <> [] -> slt a (a ++ b)) /\ (forall p x y a b, (x < y)%N -> slt (p ++ x :: a) (p ++ y :: b)).
+Proof. exact (conj slt_prefix slt_first_difference). Qed.
+Theorem C08_declared_levels_kept : forall c dl drop, levels_used c (Some dl) drop = dl.
+Proof. exact declared_levels_kept. Qed.
+(* non-vacuity: "b", null, "a", "ab", "a"  ->  levels a, ab, b; one indicator column each, all cells numbers *)
+Example C08_example :
+  let v := [Some [98]; None; Some [97]; Some [97; 98]; Some [97]]%N in
+  levels_of v = [[97]; [97; 98]; [98]]%N /\
+  map snd (encode [65]%N (EvCat v None) false []) =
+    [[Some (Q2Qc 0); Some (Q2Qc 0); Some (Q2Qc 1); Some (Q2Qc 0); Some (Q2Qc 1)];
+     [Some (Q2Qc 0); Some (Q2Qc 0); Some (Q2Qc 0); Some (Q2Qc 1); Some (Q2Qc 0)];
+     [Some (Q2Qc 1); Some (Q2Qc 0); Some (Q2Qc 0); Some (Q2Qc 0); Some (Q2Qc 0)]].
+Proof. vm_compute. auto. Qed.
+
+Print Assumptions C08_text_levels_are_the_values.
+Print Assumptions C08_text_levels_sorted.
+Print Assumptions C08_text_levels_distinct.
+Print Assumptions C08_order_is_codepoint_order.
+Print Assumptions C08_declared_levels_kept.
+Print Assumptions C08_example.
 Print Assumptions C08_text_and_category_are_categorical.
 Print Assumptions C08_numeric_is_numerical.
 Print Assumptions C08_materializers_agree_on_kinds.
